@@ -134,7 +134,15 @@ func (rs *RecordSet) readFromVersion1(d *decoder) error {
 				// will have relative offsets. The absolute offset can be computed
 				// using the offset from the outer message, which corresponds to the
 				// offset assigned to the last inner message.
-				lastRelativeOffset := int64(len(r.records)) - 1
+				//
+				// The relative offsets are not necessarily 0..n-1: log
+				// compaction leaves gaps, and the absolute offset of an inner
+				// message is the wrapper's offset minus its distance to the
+				// last inner message.
+				lastRelativeOffset := int64(0)
+				if n := len(r.records); n > 0 {
+					lastRelativeOffset = r.records[n-1].Offset
+				}
 
 				for i := range r.records {
 					r.records[i].Offset = baseOffset - (lastRelativeOffset - r.records[i].Offset)
